@@ -3,7 +3,11 @@
 //!   pt_search_by <pred> <s> <tgt>   =>  panic | none | [path]
 //!   pt_search    <pred> <s> <t>     =>  panic | none | [path]
 //!
-//! `pred` = list of `none` | id; `tgt` ∈ `[eq t] [in [..]] [predeq x] prednone always never`.
+//!   pt_big <len> <dflt> [[i e]..] <s> <tgt>   long vector in a compact description: every entry is
+//!       `dflt` (`none | self | next | prev | id`) except the listed ones; `[eq t]` calls `search`
+//!
+//! `pred` = list of `none` | id; `tgt` ∈ `[eq t] [in [..]] [predeq x] prednone always never
+//! [reach2 <pred2> t]` (the predicate runs `search(v, t)` on a second tree).
 #![allow(clippy::all)]
 
 use crate::rng::Rng;
@@ -18,39 +22,85 @@ fn out(r: Option<Vec<usize>>) -> Vec<V> {
     vec![r.map_or_else(V::none, |p| V::us(p))]
 }
 
+/// `search_by` with a protocol predicate.
+fn search_tgt(tree: &PredecessorTree, s: usize, tgt: &V) -> Option<Option<Vec<usize>>> {
+    Some(match tgt {
+        V::A(a) if a == "prednone" => tree.search_by(s, |_, p| p.is_none()),
+        V::A(a) if a == "always" => tree.search_by(s, |_, _| true),
+        V::A(a) if a == "never" => tree.search_by(s, |_, _| false),
+        V::L(xs) if xs.len() == 2 => match xs[0].as_atom()? {
+            "eq" => {
+                let t = xs[1].as_usize()?;
+                tree.search_by(s, |&v, _| v == t)
+            }
+            "in" => {
+                let ts = xs[1].as_usizes()?;
+                tree.search_by(s, |v, _| ts.contains(v))
+            }
+            "predeq" => {
+                let x = xs[1].as_usize()?;
+                tree.search_by(s, |_, p| *p == Some(x))
+            }
+            _ => return None,
+        },
+        // `[reach2 pred2 t]`: "a search in a SECOND predecessor tree from v reaches t" — a pure
+        // function of the vertex that itself runs `search` (re-entrancy of the library code)
+        V::L(xs) if xs.len() == 3 && xs[0].as_atom() == Some("reach2") => {
+            let tree2 = PredecessorTree::from(parse_pred(&xs[1])?);
+            let len2 = xs[1].as_list()?.len();
+            let t = xs[2].as_usize()?;
+            tree.search_by(s, |&v, _| v < len2 && tree2.search(v, t).is_some())
+        }
+        _ => return None,
+    })
+}
+
+/// Compact description of a long vector: `len dflt [[i e]..]`, `dflt` ∈ `none | self | next | prev | id`.
+fn build_big(len: &V, dflt: &V, exc: &V) -> Option<Vec<Option<usize>>> {
+    let len = len.as_usize()?;
+    if len > 1 << 20 {
+        return None;
+    }
+    let mut pred: Vec<Option<usize>> = match dflt {
+        V::A(a) if a == "none" => vec![None; len],
+        V::A(a) if a == "self" => (0..len).map(Some).collect(),
+        V::A(a) if a == "next" => (0..len).map(|i| if i + 1 < len { Some(i + 1) } else { None }).collect(),
+        V::A(a) if a == "prev" => (0..len).map(|i| i.checked_sub(1)).collect(),
+        v => vec![Some(v.as_usize()?); len],
+    };
+    for e in exc.as_list()? {
+        let e = e.as_list()?;
+        if e.len() != 2 {
+            return None;
+        }
+        *pred.get_mut(e[0].as_usize()?)? = e[1].as_opt_usize()?;
+    }
+    Some(pred)
+}
+
 pub fn eval(op: &str, args: &[V]) -> Option<Vec<V>> {
     match op {
         "pt_search_by" => {
             let [pred, s, tgt] = args else { return None };
             let tree = PredecessorTree::from(parse_pred(pred)?);
-            let s = s.as_usize()?;
-            let r = match tgt {
-                V::A(a) if a == "prednone" => tree.search_by(s, |_, p| p.is_none()),
-                V::A(a) if a == "always" => tree.search_by(s, |_, _| true),
-                V::A(a) if a == "never" => tree.search_by(s, |_, _| false),
-                V::L(xs) if xs.len() == 2 => match xs[0].as_atom()? {
-                    "eq" => {
-                        let t = xs[1].as_usize()?;
-                        tree.search_by(s, |&v, _| v == t)
-                    }
-                    "in" => {
-                        let ts = xs[1].as_usizes()?;
-                        tree.search_by(s, |v, _| ts.contains(v))
-                    }
-                    "predeq" => {
-                        let x = xs[1].as_usize()?;
-                        tree.search_by(s, |_, p| *p == Some(x))
-                    }
-                    _ => return None,
-                },
-                _ => return None,
-            };
-            Some(out(r))
+            Some(out(search_tgt(&tree, s.as_usize()?, tgt)?))
         }
         "pt_search" => {
             let [pred, s, t] = args else { return None };
             let tree = PredecessorTree::from(parse_pred(pred)?);
             Some(out(tree.search(s.as_usize()?, t.as_usize()?)))
+        }
+        "pt_big" => {
+            let [len, dflt, exc, s, tgt] = args else { return None };
+            let tree = PredecessorTree::from(build_big(len, dflt, exc)?);
+            let s = s.as_usize()?;
+            // `[eq t]` goes through `search` itself
+            if let V::L(xs) = tgt {
+                if xs.len() == 2 && xs[0].as_atom() == Some("eq") {
+                    return Some(out(tree.search(s, xs[1].as_usize()?)));
+                }
+            }
+            Some(out(search_tgt(&tree, s, tgt)?))
         }
         _ => None,
     }
@@ -143,7 +193,108 @@ fn gen_collide(rng: &mut Rng, emit: &mut dyn FnMut(String)) {
     emit(format!("pt_search_by {p} {start} {tgt}"));
 }
 
+/// Round 2b: long vectors (compact description) whose walk steps onto the TOP ids (the last
+/// `len % 64` ones and the ids around word / block boundaries of a bitset).
+fn gen_big(rng: &mut Rng, huge: bool, emit: &mut dyn FnMut(String)) {
+    let len = match rng.below(if huge { 8 } else { 7 }) {
+        0..=2 => 4097 + rng.below(64),          // 4097..4160
+        3 | 4 => 8191 + rng.below(10),          // 8191..8200
+        5 => *rng.pick(&[4095usize, 4096, 4159, 4161, 4223, 12_289, 16_385]),
+        6 => 4097 + rng.below(4200),
+        _ => 65_537,
+    };
+    let top = len - 1 - rng.below(63.min(len - 1));       // one of the last 1..63 ids
+    let word0 = (len / 64) * 64;                            // first id of the last (partial) word
+    let ids = |rng: &mut Rng| -> usize {
+        let x = match rng.below(8) {
+            0 | 1 => len - 1 - rng.below(63),
+            2 => len - 1,
+            3 => word0,
+            4 => word0.saturating_sub(1 + rng.below(2)),
+            5 => *rng.pick(&[0usize, 63, 64, 4095, 4096]),
+            _ => rng.below(len),
+        };
+        x.min(len - 1)                                      // always in range
+    };
+    let mut walk: Vec<usize> = vec![if rng.chance(1, 2) { rng.below(64) } else { ids(rng) }];
+    let k = 1 + rng.below(6);
+    for i in 0..k {
+        let x = if i == 0 || rng.chance(1, 2) { if i == 0 { top } else { ids(rng) } } else { rng.below(len) };
+        if !walk.contains(&x) { walk.push(x); }
+    }
+    let start = walk[0];
+    let last = *walk.last().unwrap();
+    let dflt = match rng.below(6) { 0 | 1 | 2 => "none".to_string(), 3 => "self".to_string(), 4 => format!("{}", rng.below(len)), _ => "none".to_string() };
+    let mut exc: Vec<(usize, Option<usize>)> = walk.windows(2).map(|w| (w[0], Some(w[1]))).collect();
+    match rng.below(5) {
+        0 => exc.push((last, None)),
+        1 => if walk.len() > 1 { exc.push((last, Some(last))) } else { exc.push((last, None)) },
+        2 => exc.push((last, Some(walk[rng.below(walk.len())]))),
+        3 => exc.push((last, Some(start))),
+        _ => exc.push((last, None)),
+    }
+    let exc_v = V::L(exc.iter().map(|&(i, e)| V::L(vec![V::u(i), V::opt_u(e)])).collect());
+    let tgt = match rng.below(8) {
+        0..=3 => V::L(vec![V::atom("eq"), V::u(last)]),
+        4 => V::L(vec![V::atom("eq"), V::u(walk[walk.len() / 2])]),
+        5 => V::L(vec![V::atom("in"), V::us([last, rng.below(len)])]),
+        6 => V::L(vec![V::atom("predeq"), V::u(last)]),
+        _ => V::L(vec![V::atom("eq"), V::u(rng.below(len))]),
+    };
+    emit(format!("pt_big {len} {dflt} {exc_v} {start} {tgt}"));
+}
+
+/// `next` / `prev` defaults: a long run near the top of the vector.
+fn gen_big_run(rng: &mut Rng, emit: &mut dyn FnMut(String)) {
+    let len = if rng.chance(1, 2) { 4097 + rng.below(64) } else { 8191 + rng.below(10) };
+    let s = len - 1 - rng.below(150);
+    if rng.chance(1, 2) {
+        // walk up to the end of the vector
+        let t = if rng.chance(3, 4) { len - 1 - rng.below(3) } else { rng.below(len) };
+        emit(format!("pt_big {len} next [] {s} [eq {t}]"));
+    } else {
+        // walk down from the top for a bounded number of steps
+        let stop = s - 20 - rng.below(100);
+        let t = if rng.chance(3, 4) { stop + rng.below(3) } else { rng.below(len) };
+        emit(format!("pt_big {len} prev [[{stop} none]] {s} [eq {t}]"));
+    }
+}
+
+/// Round 2b: the predicate itself searches a second predecessor tree.
+fn gen_reach2(rng: &mut Rng, emit: &mut dyn FnMut(String)) {
+    let cap = if rng.chance(1, 5) { 60 } else { 12 };
+    let len = 2 + rng.below(cap);
+    let rnd = |rng: &mut Rng| -> Vec<Option<usize>> {
+        let shape = rng.below(3);
+        (0..len)
+            .map(|i| match shape {
+                0 => if rng.chance(1, 5) { None } else { Some(rng.below(len)) },
+                1 => if i == 0 { None } else { Some(rng.below(i)) },           // a tree rooted at 0
+                _ => if i + 1 < len { Some(i + 1) } else { None },              // a chain
+            })
+            .collect()
+    };
+    let fwd = rnd(rng);
+    let bwd = rnd(rng);
+    let s = rng.below(len);
+    let t = if rng.chance(1, 3) { 0 } else { rng.below(len + 1) };
+    emit(format!("pt_search_by {} {s} [reach2 {} {t}]", show_pred(&fwd), show_pred(&bwd)));
+}
+
 pub fn gen(rng: &mut Rng, thorough: bool, emit: &mut dyn FnMut(String)) {
+    // (00) round 2b: long vectors / top ids, re-entrant predicates
+    if crate::stress() {
+        emit("pt_big 4097 none [[0 4096] [4096 1]] 0 [eq 1]".to_string());
+        emit("pt_big 65537 none [[0 65536] [65536 1]] 0 [eq 1]".to_string());
+        emit("pt_search_by [1 2 none] 0 [reach2 [none 0 1] 0]".to_string());
+        for i in 0..1_500 { gen_big(rng, i % 25 == 0, emit); }
+        for _ in 0..60 { gen_big_run(rng, emit); }
+        for _ in 0..4_000 { gen_reach2(rng, emit); }
+    } else {
+        for i in 0..(if thorough { 600 } else { 60 }) { gen_big(rng, i % 60 == 59, emit); }
+        for _ in 0..(if thorough { 30 } else { 4 }) { gen_big_run(rng, emit); }
+        for _ in 0..(if thorough { 20_000 } else { 2_500 }) { gen_reach2(rng, emit); }
+    }
     // (0) round 2: colliding ids on long walks — in the stress tier ONLY these
     if crate::stress() {
         emit("pt_search [1 2 34 none 0 0 0 0 0 0 0 0 0 0 0 0 0 0 0 0 0 0 0 0 0 0 0 0 0 0 0 0 0 0 3] 0 3".to_string());
